@@ -107,6 +107,14 @@ var (
 		Text: "table-vs-table with encoding/json: the decoder's escape table and \\uXXXX reader, the encoder's safeSet; the encoder has the short escapes and the \\u00XX fallback"}
 	rJSON5 = &Rule{Name: "JSON.5", Floor: 9, Fn: ruleJSON5,
 		Text: "Encode has an arm for every type the property names; undefined → null; bool through IsFalsy with the right polarity"}
+	rFMT1 = &Rule{Name: "FMT.1", Floor: 7, Fn: ruleFMT1,
+		Text: "every explicit panic in formatter.go reachable from Format carries ErrStringLimit (converted to the returned error by doFormat's deferred recover, which re-raises anything else) or is tabled with a re-checked premise (literal bases for fmtInteger)"}
+	rFMT2 = &Rule{Name: "FMT.2", Floor: 8, Fn: ruleFMT2,
+		Text: "formatter.wid/prec are assigned only from parsenum/intFromArg (which consult tooLarge), constants, or their own negation: the buffers sized from wid+prec are bounded"}
+	rFMT3 = &Rule{Name: "FMT.3", Floor: 4, Fn: ruleFMT3,
+		Text: "Format: newPrinter → doFormat → copy buffer → free on the only path; flags cleared at every directive; pooled printers re-initialised and truncated"}
+	rFMT4 = &Rule{Name: "FMT.4", Floor: 50, Fn: ruleFMT4,
+		Text: "agreement with the building toolchain's fmt: verb dispatch tables of fmtBool/fmtInteger/fmtFloat/fmtString/fmtBytes verb by verb (one tabled skew), the flag characters of the directive parser, and the 21 functions that are verbatim ports (alpha-normalised clone comparison with the reference source)"}
 )
 
 func allProperties() []*Property {
@@ -171,6 +179,10 @@ func allProperties() []*Property {
 			Decided:    "the VM's tail-call predicate is exactly 'next is RET or POP;RET'; the reuse path grows no frame and overwrites parameter slots directly; the compiler places RET directly after the documented tail positions.",
 			NotDecided: "that deep recursion terminates with the right value.",
 			Rules:      []*Rule{rTAIL, rCODEC3}},
+		{ID: "C17",
+			Decided:    "all output goes through writers guarded by MaxStringLen; explicit panics are the limit error or proven unreachable; width/precision are bounded; printer pooling hygiene; verb dispatch, flag parsing and the verbatim-ported helpers agree with the building toolchain's fmt.",
+			NotDecided: "equality with fmt.Sprintf for all inputs (the non-identical parts of the port: fmtInteger, fmtFloat, fmtC, padding, doFormat's argument handling); implicit index panics inside digit loops.",
+			Rules:      []*Rule{rLIMIT2, rFMT1, rFMT2, rFMT3, rFMT4}},
 		{ID: "C18",
 			Decided:    "the validity automaton equals encoding/json's state by state; validate-before-decode; number typing by '.', 'e', 'E'; escape tables equal the reference's; encoder arms for all named types.",
 			NotDecided: "round-trip equality of values; number and string values after decoding; float formatting.",
